@@ -1,7 +1,7 @@
 (* Consequences of [parse_hit_objects_spec], one per clause of the property
    text of C14, the C06-relevant facts (a rejected line only touches scratch
    buffers, scratch buffers never matter, a rejected line is as if absent), and
-   the spinner-bit witness. *)
+   "follows a spinner" in terms of the kind of the object produced. *)
 From RM Require Import Model.Text Model.Num Model.HitSamples Model.PathString
      Model.HitObjectLine Model.HitObjectSpec.
 From RM Require Import Proofs.HitSamplesFacts Proofs.PathStringFacts Proofs.FloatFacts14
@@ -266,7 +266,7 @@ Proof.
   destruct (flag_bit hot_new_combo t); repeat split; try discriminate; try reflexivity; lia.
 Qed.
 
-(* ---------- "follows a spinner": remembered type bits vs. the object's kind ---------- *)
+(* ---------- "follows a spinner": the remembered type bits name the object's kind ---------- *)
 Definition last_is_spinner (st : HOState) : bool :=
   match last_opt (ho_objects st) with
   | Some o => kind_tag (h_kind o) =? 2
@@ -299,11 +299,6 @@ Proof.
   - destruct (rejected_state _ _ _ H) as (Hl & Ho & _). unfold coherent. rewrite Hl, Ho. exact Hc.
 Qed.
 
-(* the type byte names one kind only (as far as the spinner test is concerned) *)
-Definition ambiguous_last (st : HOState) : Prop :=
-  exists k, ho_last st = Some k /\ flag_bit hot_spinner k = true /\
-            (flag_bit hot_circle k = true \/ flag_bit hot_slider k = true).
-
 Lemma kept_type_bit : forall f t, 0 < f -> f = 2 ^ Z.log2 f ->
   Z.testbit hot_combo_offset (Z.log2 f) = false -> Z.testbit hot_new_combo (Z.log2 f) = false ->
   flag_bit f (kept_type t) = flag_bit f t.
@@ -312,29 +307,88 @@ Proof.
   apply cleared_bit; try assumption. apply Z.log2_nonneg.
 Qed.
 
-Theorem follows_spinner_by_kind : forall st,
-  coherent st -> ~ ambiguous_last st ->
-  last_object_was_spinner st = last_is_spinner st.
+(* dropping the combo bits does not change which kind a type names *)
+Lemma kind_of_kept_type : forall t, kind_of_type (kept_type t) = kind_of_type t.
 Proof.
-  intros st Hc Hna. unfold coherent in Hc. unfold last_object_was_spinner, last_is_spinner.
+  intros t. unfold kind_of_type. rewrite !kept_type_bit by reflexivity. reflexivity.
+Qed.
+
+(* the parser's spinner test on the remembered type bits IS "the last object
+   pushed is a spinner", in every reachable state and with no exception *)
+Theorem follows_spinner_by_kind : forall st,
+  coherent st -> last_object_was_spinner st = last_is_spinner st.
+Proof.
+  intros st Hc. rewrite last_object_was_spinner_spec. unfold coherent in Hc. unfold last_is_spinner.
   destruct (ho_last st) as [k|] eqn:El; destruct (last_opt (ho_objects st)) as [o|]; try contradiction;
     [|reflexivity].
-  destruct Hc as [t [Hk Ht]]. rewrite has_flag_bit by reflexivity.
-  assert (B0 : flag_bit hot_circle k = flag_bit hot_circle t) by (subst k; apply kept_type_bit; reflexivity).
-  assert (B1 : flag_bit hot_slider k = flag_bit hot_slider t) by (subst k; apply kept_type_bit; reflexivity).
-  assert (B3 : flag_bit hot_spinner k = flag_bit hot_spinner t) by (subst k; apply kept_type_bit; reflexivity).
-  unfold kind_of_type in Ht.
-  destruct (flag_bit hot_spinner k) eqn:E3.
-  - (* spinner bit set: not ambiguous, so neither circle nor slider bit *)
-    destruct (flag_bit hot_circle k) eqn:E0.
-    { exfalso. apply Hna. exists k. auto. }
-    destruct (flag_bit hot_slider k) eqn:E1.
-    { exfalso. apply Hna. exists k. auto. }
-    rewrite <- B0, <- B1, <- B3 in Ht. injection Ht as Ht. rewrite <- Ht. reflexivity.
-  - rewrite <- B3 in Ht.
-    destruct (flag_bit hot_circle t); [injection Ht as Ht; rewrite <- Ht; reflexivity|].
-    destruct (flag_bit hot_slider t); [injection Ht as Ht; rewrite <- Ht; reflexivity|].
-    destruct (flag_bit hot_hold t); [injection Ht as Ht; rewrite <- Ht; reflexivity|discriminate].
+  destruct Hc as [t [Hk Ht]]. subst k. unfold type_is_spinner. rewrite kind_of_kept_type, Ht.
+  destruct (h_kind o); reflexivity.
+Qed.
+
+Theorem first_object_by_objects : forall st,
+  coherent st -> first_object st = match ho_objects st with [] => true | _ => false end.
+Proof.
+  intros st Hc. unfold coherent in Hc. unfold first_object.
+  destruct (ho_last st) as [k|]; destruct (ho_objects st) as [|o r] eqn:Eo; try reflexivity.
+  - contradiction.
+  - exfalso. change (o :: r) with ([] ++ o :: r) in Hc.
+    destruct (last_opt ([] ++ o :: r)) eqn:El; [exact Hc|].
+    clear - El. cbn [app] in El. revert o El. induction r as [|a r IH]; intros o El; [discriminate|].
+    cbn [last_opt] in El. apply (IH a). exact El.
+Qed.
+
+(* "is the first object or directly follows a spinner", read off the list of
+   objects produced so far (rejected lines leave no trace there) *)
+Definition follows_by_kind (objs : list HitObject) : bool :=
+  match last_opt objs with
+  | None => true
+  | Some o => match h_kind o with KSpinner _ => true | _ => false end
+  end.
+
+Lemma last_opt_none : forall {A} (l : list A), last_opt l = None -> l = [].
+Proof.
+  intros A l. induction l as [|a l IH]; [reflexivity|]. cbn [last_opt].
+  destruct l as [|b l]; [discriminate|]. intros H. apply IH in H. discriminate.
+Qed.
+
+Theorem starts_combo_by_kind : forall st t,
+  coherent st ->
+  starts_combo st t = flag_bit hot_new_combo t || follows_by_kind (ho_objects st).
+Proof.
+  intros st t Hc. unfold starts_combo, follows_by_kind. f_equal.
+  unfold coherent in Hc.
+  destruct (ho_last st) as [k|]; destruct (last_opt (ho_objects st)) as [o|]; try contradiction;
+    [|reflexivity].
+  destruct Hc as [t0 [Hk Ht]]. subst k. unfold type_is_spinner. rewrite kind_of_kept_type, Ht.
+  destruct (h_kind o); reflexivity.
+Qed.
+
+(* the new-combo flag of a circle or slider *)
+Definition new_combo_of (k : HitObjectKind) : option bool :=
+  match k with
+  | KCircle c => Some (ci_new_combo c)
+  | KSlider s => Some (sl_new_combo s)
+  | _ => None
+  end.
+
+(* an accepted circle / slider line, in a state whose remembered type
+   describes the last object: the flag is the line's own new-combo bit, or
+   first object, or the object pushed before it is a spinner -- by KIND *)
+Theorem new_combo_by_kind : forall st line st',
+  coherent st ->
+  parse_hit_objects st line = Done (st', Ok) ->
+  exists f obj,
+    common_spec line = Some f /\ ho_objects st' = ho_objects st ++ [obj] /\
+    forall b, new_combo_of (h_kind obj) = Some b ->
+      b = flag_bit hot_new_combo (f_type f) || follows_by_kind (ho_objects st).
+Proof.
+  intros st line st' Hc H.
+  destruct (accepted_line _ _ _ H) as (f & k & obj & Hf & _ & Ho & _ & _ & _ & _ & Hk & _).
+  exists f, obj. split; [exact Hf|]. split; [exact Ho|].
+  intros b Hb. rewrite <- starts_combo_by_kind by exact Hc.
+  destruct (h_kind obj) as [c|s|s|h]; cbn [new_combo_of kind_ok] in Hb, Hk; try discriminate.
+  - injection Hb as <-. apply Hk.
+  - injection Hb as <-. apply Hk.
 Qed.
 
 (* ---------- the scratch buffers never influence the outcome ---------- *)
@@ -422,6 +476,49 @@ Qed.
 
 Lemma coherent_run : forall mode lines, coherent (run_lines mode lines).
 Proof. intros. unfold run_lines, run_from. apply coherent_fold. apply coherent_create. Qed.
+
+(* objects are only ever appended *)
+Lemma step_objects : forall st l, exists rest, ho_objects (step_line st l) = ho_objects st ++ rest.
+Proof.
+  intros st l. unfold step_line.
+  destruct (parse_hit_objects st l) as [[st' [|]]| |] eqn:E.
+  - destruct (accepted_line _ _ _ E) as (f & k & obj & _ & _ & Ho & _). exists [obj]. exact Ho.
+  - destruct (rejected_state _ _ _ E) as (_ & Ho & _). exists []. rewrite app_nil_r. exact Ho.
+  - exists []. rewrite app_nil_r. reflexivity.
+  - exists []. rewrite app_nil_r. reflexivity.
+Qed.
+
+Lemma run_objects : forall lines st, exists rest, ho_objects (run_from st lines) = ho_objects st ++ rest.
+Proof.
+  intros lines. induction lines as [|l r IH]; intros st.
+  - exists []. rewrite app_nil_r. reflexivity.
+  - unfold run_from in *. cbn [fold_left]. destruct (IH (step_line st l)) as [r2 H2].
+    destruct (step_objects st l) as [r1 H1]. exists (r1 ++ r2). rewrite H2, H1, app_assoc. reflexivity.
+Qed.
+
+(* the forced new combo over a whole [HitObjects] section, for every sequence of
+   lines: when line [l] is accepted after the lines [pre], the object it adds
+   stands in the final list right behind the objects of [pre]; if it is a circle
+   or a slider, its new-combo flag is the line's own new-combo bit, or it is the
+   first object of the list, or the object right before it IS a spinner.
+   Rejected lines in [pre] contribute no object, so they do not count. *)
+Theorem new_combo_in_sequence : forall mode pre l post st',
+  parse_hit_objects (run_lines mode pre) l = Done (st', Ok) ->
+  exists f obj rest,
+    common_spec l = Some f /\
+    ho_objects (run_lines mode (pre ++ l :: post)) = ho_objects (run_lines mode pre) ++ obj :: rest /\
+    forall b, new_combo_of (h_kind obj) = Some b ->
+      b = flag_bit hot_new_combo (f_type f) || follows_by_kind (ho_objects (run_lines mode pre)).
+Proof.
+  intros mode pre l post st' H.
+  destruct (new_combo_by_kind _ _ _ (coherent_run mode pre) H) as (f & obj & Hf & Ho & Hb).
+  destruct (run_objects post st') as [rest Hr].
+  exists f, obj, rest. split; [exact Hf|]. split; [|exact Hb].
+  unfold run_lines, run_from in *. rewrite fold_left_app. cbn [fold_left].
+  replace (step_line (fold_left step_line pre (ho_create mode)) l) with st'
+    by (unfold step_line at 1; rewrite H; reflexivity).
+  rewrite Hr, Ho, <- app_assoc. reflexivity.
+Qed.
 
 (* observations on a state, as integers *)
 Definition obs_combo (st : HOState) : list (Z * Z) :=
